@@ -22,6 +22,8 @@ type Oracle struct {
 	Buckets  []string // classification of the last step (for the input distribution)
 	// StrictHost: the history runs with the global strict-host option
 	StrictHost bool
+	// SortBy: sort-endpoints-by of the history
+	SortBy string
 }
 
 // NewOracle creates the per-history state.
@@ -292,6 +294,16 @@ func (o *Oracle) Check(st *Step, obs *StepObs, c02, c11 bool) []Finding {
 					if f == "Paths" && !b.Shrunk {
 						sfx = "-strict-host-paths"
 					}
+				}
+			}
+		}
+		// cause, for the key: dynamic scaling off compares the endpoint lists as they are, the loaded
+		// one was sorted (sort-endpoints-by) and the re-created one is not; Shrink would have dropped
+		// the pair, but it never matches a backend with path ACLs (PathsDefaultHostMap)
+		if noop && sfx == "" && o.SortBy != "" {
+			for _, b := range obs.Backs {
+				if !b.Flags.Dyn && b.NeedACL && !b.Shrunk && !b.New {
+					sfx = "-static-sorted-endpoints-path-acls"
 				}
 			}
 		}
